@@ -267,6 +267,20 @@ class Normaliser:
         self.sigs = Signatures(trees)
         self.nonnone = nonnone_containers(trees)
         self.tuple_containers = tuple_containers(trees)
+        # method name -> attributes of self it stores (any class: a conservative union by name)
+        self.method_stores: dict[str, set[str]] = {}
+        for t in trees:
+            for m in ast.walk(t):
+                if isinstance(m, ast.FunctionDef):
+                    for x in ast.walk(m):
+                        if isinstance(x, ast.Attribute) and isinstance(x.ctx, (ast.Store, ast.Del)) and isinstance(x.value, ast.Name) and x.value.id == "self":
+                            self.method_stores.setdefault(m.name, set()).add(x.attr)
+        self.plain_methods: dict[str, set[str]] = {}
+        for t in trees:
+            for c in ast.walk(t):
+                if isinstance(c, ast.ClassDef):
+                    self.plain_methods.setdefault(c.name, set()).update(
+                        m.name for m in c.body if isinstance(m, ast.FunctionDef) and not m.decorator_list and m.args.args and m.args.args[0].arg == "self")
         self.subclassed = {ast.unparse(b).split(".")[-1] for t in trees for c in ast.walk(t) if isinstance(c, ast.ClassDef) for b in c.bases}
         # attribute names that some function other than an __init__ (or a class body) assigns: `x.attr` may change under a reader
         self.mutable_attrs: set[str] = set()
@@ -749,6 +763,102 @@ class Normaliser:
                 return visit(block)
         visit(fn.body)
 
+    def field_shadows(self, fn: ast.AST) -> None:
+        """buf = self.F; ...; buf += x; self.F = buf; ...; buf = self.F = y; ... use(buf)        ==>   the same with self.F for buf
+        A local that shadows a field and is written back after each of its updates (scalar replacement by hand) is replaced by
+        the field: L is first bound by `L = self.F`; every later store to L is `L = self.F = v` or is directly followed by
+        `self.F = L`; a store to self.F that is not such a write-back is followed by no further read of L; no call of a method
+        of the same class that stores F occurs in the function."""
+        if not (fn.args.args and fn.args.args[0].arg == "self"):
+            return
+        body = fn.body
+
+        def is_self_attr(e, F=None):
+            return isinstance(e, ast.Attribute) and isinstance(e.value, ast.Name) and e.value.id == "self" and (F is None or e.attr == F)
+        first = None
+        for st in body:
+            if isinstance(st, ast.Expr) and isinstance(st.value, ast.Constant):
+                continue
+            if isinstance(st, ast.Assign) and len(st.targets) == 1 and isinstance(st.targets[0], ast.Name) and is_self_attr(st.value) and st.value.attr in self.mutable_attrs:
+                first = st
+                break
+            if isinstance(st, ast.Assign) and len(st.targets) == 1 and isinstance(st.targets[0], ast.Name) and not any(is_self_attr(x) for x in ast.walk(st.value)):
+                continue   # other simple bindings may precede
+            break
+        if first is None:
+            return
+        L, F = first.targets[0].id, first.value.attr
+        if any(isinstance(x, (ast.FunctionDef, ast.AsyncFunctionDef, ast.Lambda)) and any(isinstance(y, ast.Name) and y.id == L for y in ast.walk(x)) for x in ast.walk(fn) if x is not fn):
+            return
+        # no call of a sibling method that stores F
+        for x in ast.walk(fn):
+            if isinstance(x, ast.Call) and is_self_attr(x.func) and F in self.method_stores.get(x.func.attr, ()):
+                return
+        ok = [True]
+        stale = [False]
+        nback = [0]
+
+        def scan(block: list[ast.stmt]) -> list[ast.stmt]:
+            out: list[ast.stmt] = []
+            i = 0
+            while i < len(block):
+                st = block[i]
+                nxt = block[i + 1] if i + 1 < len(block) else None
+                if st is first:
+                    i += 1
+                    continue
+                stores_L = [x for x in ast.walk(st) if isinstance(x, ast.Name) and x.id == L and isinstance(x.ctx, (ast.Store, ast.Del))] if not isinstance(st, (ast.If, ast.While, ast.For, ast.Try, ast.With)) else []
+                if isinstance(st, (ast.If, ast.While, ast.For, ast.Try, ast.With)):
+                    hdr_reads = [x for fld in ("test", "iter") for e in [getattr(st, fld, None)] if e is not None for x in ast.walk(e) if isinstance(x, ast.Name) and x.id == L]
+                    if hdr_reads and stale[0]:
+                        ok[0] = False
+                    for fld in ("body", "orelse", "finalbody"):
+                        v = getattr(st, fld, None)
+                        if isinstance(v, list) and v and isinstance(v[0], ast.stmt):
+                            setattr(st, fld, scan(v))
+                    for h in getattr(st, "handlers", []) or []:
+                        h.body = scan(h.body)
+                    out.append(st)
+                    i += 1
+                    continue
+                reads_L = [x for x in ast.walk(st) if isinstance(x, ast.Name) and x.id == L and isinstance(x.ctx, ast.Load)]
+                if reads_L and stale[0]:
+                    ok[0] = False
+                if isinstance(st, ast.Assign) and len(st.targets) == 2 and any(isinstance(t, ast.Name) and t.id == L for t in st.targets) and any(is_self_attr(t, F) for t in st.targets):
+                    # L = self.F = v
+                    out.append(ast.copy_location(ast.Assign(targets=[t for t in st.targets if is_self_attr(t, F)], value=st.value), st))
+                    nback[0] += 1
+                    i += 1
+                    continue
+                if stores_L:
+                    # must be written back by the next statement
+                    if isinstance(nxt, ast.Assign) and len(nxt.targets) == 1 and is_self_attr(nxt.targets[0], F) and isinstance(nxt.value, ast.Name) and nxt.value.id == L \
+                            and isinstance(st, (ast.Assign, ast.AugAssign)):
+                        out.append(st)      # names replaced below: becomes `self.F = v` / `self.F += v`
+                        nback[0] += 1
+                        i += 2
+                        continue
+                    ok[0] = False
+                if isinstance(st, (ast.Assign, ast.AugAssign)) and any(is_self_attr(t, F) for t in (st.targets if isinstance(st, ast.Assign) else [st.target])):
+                    stale[0] = True      # a store to the field that is not a write-back of L: L must not be read afterwards
+                out.append(st)
+                i += 1
+            return out
+        saved = copy.deepcopy(body)
+        new_body = scan(body)
+        if not ok[0] or nback[0] == 0:
+            # (a local that is only read is a *snapshot* of the field -- taken on purpose where another thread may re-bind it)
+            fn.body = saved
+            return
+
+        class _R(ast.NodeTransformer):
+            def visit_Name(self_, x):  # noqa: N805
+                if x.id == L:
+                    return ast.copy_location(ast.Attribute(value=ast.Name(id="self", ctx=ast.Load()), attr=F, ctx=x.ctx), x)
+                return x
+        fn.body = [ast.fix_missing_locations(_R().visit(st)) for st in new_body]
+        self.hit("field-shadow-local-eliminated")
+
     def callee_aliases(self, fn: ast.AST) -> None:
         """append = self.stack.append ... append(x)          ==>   self.stack.append(x)
            get = partial(items.get, block=False) ... get()   ==>   items.get(block=False)
@@ -868,8 +978,9 @@ class Normaliser:
         fn.body = strip(fn.body) or [ast.copy_location(ast.Pass(), fn)]
         for _ in cands:
             self.hit("callee-alias-inlined")
-        # the rewritten calls may now be in a form another idiom normalises (keywords, defaults)
-        fn.body = [y for st in fn.body for y in [st]]
+        # the rewritten calls may now be in a form another idiom normalises (keywords, defaults, Class.method(obj))
+        ex = _Expr(self)
+        fn.body = [ex.visit(st) for st in fn.body]
 
     def lookup_or_return(self, body: list[ast.stmt]) -> list[ast.stmt]:
         """function body:   try: T = D.pop(K) | D[K]            T = D.pop(K, None) | D.get(K)
@@ -972,6 +1083,7 @@ class Normaliser:
             self.unroll_literal_loops(st)
             self.list_builders(st)
             self.callee_aliases(st)
+            self.field_shadows(st)
         if isinstance(st, ast.Assign) and len(st.targets) == 1 and isinstance(st.targets[0], ast.Subscript) and isinstance(st.targets[0].slice, ast.Slice) \
                 and st.targets[0].slice.upper is None and st.targets[0].slice.step is None and st.targets[0].slice.lower is not None \
                 and isinstance(st.value, ast.List) and len(st.value.elts) == 1 and not isinstance(st.value.elts[0], ast.Starred) and _movable(st.targets[0].value):
@@ -1176,6 +1288,14 @@ class _Expr(ast.NodeTransformer):
             self.n.hit("set(genexp)->comprehension")
             cls_ = ast.SetComp if f.id == "set" else ast.ListComp
             return ast.fix_missing_locations(ast.copy_location(cls_(elt=node.args[0].elt, generators=node.args[0].generators), node))
+        # Class.method(obj, a)  ==>  obj.method(a)      (a plain method of a class of the package that has no subclass: no other dispatch possible)
+        if isinstance(f, ast.Attribute) and isinstance(f.value, ast.Name) and f.value.id in self.n.plain_methods and f.attr in self.n.plain_methods[f.value.id] \
+                and f.value.id not in self.n.subclassed and node.args and not isinstance(node.args[0], ast.Starred) and _movable(node.args[0]) \
+                and not (isinstance(node.args[0], ast.Name) and node.args[0].id in ("self", "cls")):
+            node.func = ast.copy_location(ast.Attribute(value=node.args[0], attr=f.attr, ctx=ast.Load()), f)
+            node.args = node.args[1:]
+            self.n.hit("Class.method(obj)->obj.method()")
+            f = node.func
         # f(*(a, b))  ==>  f(a, b)
         if any(isinstance(a, ast.Starred) and isinstance(a.value, (ast.Tuple, ast.List)) and not any(isinstance(x, ast.Starred) for x in a.value.elts) for a in node.args):
             na: list[ast.expr] = []
